@@ -226,12 +226,16 @@ def gen_tables() -> str:
     if isinstance(v, ast.Call) and ast.unparse(v.func) == "re.compile" and len(v.args) == 1 and isinstance(v.args[0], ast.Constant):
         dur_pat = v.args[0].value
     f = find_func(an, "_analyze_simple_command")
+    dur_once = False
     if f is not None:
         for n in ast.walk(f):
-            if isinstance(n, ast.BoolOp) and isinstance(n.op, ast.And) and len(n.values) == 2 and ast.unparse(n.values[1]) == "_TIMEOUT_DURATION.fullmatch(token)":
-                c = n.values[0]
-                if isinstance(c, ast.Compare) and ast.unparse(c.left) == "base" and isinstance(c.ops[0], ast.Eq) and isinstance(c.comparators[0], ast.Constant):
-                    dur_cmds.append(c.comparators[0].value)
+            if isinstance(n, ast.If) and isinstance(n.test, ast.BoolOp) and isinstance(n.test.op, ast.And) and "_TIMEOUT_DURATION.fullmatch(token)" in ast.unparse(n.test):
+                vals = n.test.values
+                for c in vals:
+                    if isinstance(c, ast.Compare) and ast.unparse(c.left) == "base" and isinstance(c.ops[0], ast.Eq) and isinstance(c.comparators[0], ast.Constant):
+                        dur_cmds.append(c.comparators[0].value)
+                # "only one": the test is guarded by `not seen_duration` and the branch sets it
+                dur_once = any(ast.unparse(c) == "not seen_duration" for c in vals) and any(ast.unparse(x) == "seen_duration = True" for x in n.body)
     if not dur_pat or not dur_cmds:
         MISSING.append("wrapper DURATION test")
 
@@ -351,6 +355,8 @@ def gen_tables() -> str:
         "/-- wrappers whose first positional word is a DURATION, and the pattern it is recognised by (`_TIMEOUT_DURATION`) -/",
         "def wrapperDurationCommands : List String := " + lean_list(dur_cmds),
         "def wrapperDurationPattern : String := " + lean_str(dur_pat),
+        "/-- the duration is skipped once (`not seen_duration` guards the test, the branch sets the flag) -/",
+        "def wrapperDurationOnce : Bool := " + ("true" if dur_once else "false"),
         "",
         "/-- `_WRAPPER_FLAGS_WITH_ARG` (core/analyzer.py): wrapper options whose argument is a separate word -/",
         "def wrapperFlagsWithArg : List (String × List String) := [" + ", ".join("(%s, %s)" % (lean_str(k), lean_list(xs).replace("\n", "")) for k, xs in wfa_pairs) + "]",
